@@ -5,10 +5,11 @@ from niltype import Nil
 from d42 import optional, schema, validate
 from d42.declaration.types import (AnySchema, DictSchema, FloatSchema, IntSchema, ListSchema, StrSchema)
 
-MODULE = "D42.Props.C15"
+MODULE = "D42.Props.C15Verdicts"
 THEOREMS = ["pyEq_refl", "pyEq_symm", "pyEqValue_iff", "scalarEq_same_meaning", "pyEq_discriminates_int", "pyEq_dict_flags",
-            "pyEq_nan_counterexample", "pyEq_universal_counterexample"]
-FILES = ["D42/Model/Data.lean", "D42/Model/Validate.lean", "D42/Model/Eq.lean", "D42/Spec/Conforms.lean", "D42/Props/C02.lean", "D42/Props/C15.lean"]
+            "pyEq_nan_counterexample", "pyEq_universal_counterexample", "pyEq_same_verdicts", "pyEq_same_validation",
+            "pyEq_trans", "pyEq_trans_strong", "sameShape_refl", "pyEq_same_verdicts_nonvacuous"]
+FILES = ["D42/Model/Data.lean", "D42/Model/Validate.lean", "D42/Model/Eq.lean", "D42/Spec/Conforms.lean", "D42/Props/C02.lean", "D42/Props/C13.lean", "D42/Props/C15.lean", "D42/Props/C15Verdicts.lean"]
 
 EVIDENCE = dict(
     level="proof",
